@@ -440,7 +440,7 @@ Proof.
     destruct (IH (S j) a1 ltac:(lia) R1) as (acc' & E2 & L2 & R2 & P2).
     exists acc'. split; [exact E2|]. split; [lia|]. split; [exact R2|].
     rewrite P2, P1. apply peq_peqm. intros k.
-    rewrite !coef_padd, !coef_pshift. cbn [pscale map].
+    rewrite !coef_padd, !coef_pshift. unfold pscale. cbn [map].
     destruct (k <? i + j)%nat eqn:A1.
     + apply Nat.ltb_lt in A1. assert (X : (k <? i + S j)%nat = true) by (apply Nat.ltb_lt; lia).
       rewrite X. lia.
